@@ -5,6 +5,9 @@ from kappadata.utils.getall_as_tensor import getall_as_tensor
 class SortByClassWrapper(KDSubset):
     def __init__(self, dataset):
         num_classes = dataset.getdim_class()
+        # binary classification has dim 1 but 2 classes
+        if num_classes == 1:
+            num_classes = 2
         classes = getall_as_tensor(dataset)
         indices = []
         for i in range(num_classes):
